@@ -5,7 +5,7 @@
    SCREEN n, SCREEN(r,c), typed text); INV is the invariant all of them keep. *)
 From Coq Require Import ZArith List Bool.
 From PCB Require Import lib.Result lib.PyInt model.Cursor
-  proofs.Cursor_lists proofs.Cursor_inv proofs.Cursor_place proofs.Cursor_proofs.
+  proofs.Cursor_lists proofs.Cursor_inv proofs.Cursor_place proofs.Cursor_flags proofs.Cursor_proofs.
 Import ListNotations.
 Open Scope Z_scope.
 
@@ -140,6 +140,75 @@ Theorem C36_print_plain : forall s str, INV s -> Forall (fun c => printable c = 
 Proof. exact scrn_write_plain. Qed.
 Print Assumptions C36_print_plain.
 
+(* ---- extension: any start width >= 2 (WIDTH 40, text_width option) and the vga adapter (SCREEN 7/8/9), incl. the
+   cursor keys of the line editor (SEdit) and typed text (STyped) *)
+Theorem C36_reachable_any : forall w v ops, 2 <= w -> INV (run (init_with w v) ops).
+Proof. exact reachable_INV_with. Qed.
+Print Assumptions C36_reachable_any.
+
+Theorem C36_in_screen_any : forall w v ops, 2 <= w ->
+  let s := run (init_with w v) ops in 1 <= row s <= height s /\ 1 <= col s <= width s.
+Proof. intros w v ops Hw. destruct (reachable_INV_with w v ops Hw) as [_ H]. exact H. Qed.
+Print Assumptions C36_in_screen_any.
+
+(* the invariant is all the CSRLIN/POS, LOCATE and SCREEN() theorems need: they hold in every such state *)
+Theorem C36_csrlin_pos_any : forall s, INV s ->
+  1 <= csrlin s <= height s /\ 1 <= pos s <= width s /\
+  (ovf s = false -> csrlin s = row s /\ pos s = col s) /\
+  (ovf s = true -> col s = width s ->
+     pos s = 1 /\ csrlin s = if row s <? bot s then row s + 1 else row s) /\
+  (col s <> width s -> csrlin s = row s /\ pos s = col s).
+Proof. exact csrlin_pos_rule. Qed.
+Print Assumptions C36_csrlin_pos_any.
+
+(* ---- extension: plain text from ANY state with the cursor in the window - stale line-continuation flags and a
+   pending overflow at the start included.  `layoutw` is the reference layout that knows the flags of the rows
+   ahead (flags0: those of the start screen by virtual row): a character put in the last column of a flagged row
+   takes the cursor to the next row at once, so the window scrolls one step earlier than on a flag-free screen. *)
+Theorem C36_plain_text_layout_any_flags : forall s0 str, INV s0 -> bra s0 = false ->
+  top s0 <= row s0 <= bot s0 -> (ovf s0 = true -> col s0 = width s0) ->
+  let W := width s0 in
+  let res := layoutw W (flags0 s0) (page0 s0) (row s0) (if ovf s0 then W + 1 else col s0) str in
+  let g := fst res in let vr := fst (snd res) in let vc := snd (snd res) in
+  let K := Z.max 0 (vr - bot s0) in
+  let s := write_chars false s0 str in
+  same_env s0 s /\
+  row s = vr - K /\ top s0 <= row s <= bot s0 /\
+  ((1 <= vc <= W /\ col s = vc /\ ovf s = false) \/ (vc = W + 1 /\ col s = W /\ ovf s = true)) /\
+  forall R C, 1 <= R <= height s0 -> 1 <= C <= W ->
+    get_cell (cells s) R C =
+      if (top s0 <=? R) && (R <=? bot s0) then g (R + K) C else get_cell (cells s0) R C.
+Proof. exact write_chars_layout_gen. Qed.
+Print Assumptions C36_plain_text_layout_any_flags.
+
+(* closed form: the characters sit exactly where they sit on a flag-free screen; the number of scrolls K is one
+   more exactly when the last character landed in the last column of a row whose continuation flag was set *)
+Theorem C36_plain_text_any_flags : forall s0 str, INV s0 -> bra s0 = false ->
+  top s0 <= row s0 <= bot s0 -> (ovf s0 = true -> col s0 = width s0) ->
+  let W := width s0 in
+  let n := Z.of_nat (length str) in
+  let L0 := lin W (row s0) (if ovf s0 then W + 1 else col s0) in
+  let q := L0 + n - 1 in
+  let vl := q / W in
+  let K := if n =? 0 then 0
+           else Z.max 0 ((if (q mod W =? W - 1) && flags0 s0 vl then vl + 1 else vl) - bot s0) in
+  let s := write_chars false s0 str in
+  same_env s0 s /\
+  forall R C, 1 <= R <= height s0 -> 1 <= C <= W ->
+    get_cell (cells s) R C =
+      if (top s0 <=? R) && (R <=? bot s0) then
+        let p := lin W (R + K) C - L0 in
+        if (0 <=? p) && (p <? n) then nth (Z.to_nat p) str 32 else page0 s0 (R + K) C
+      else get_cell (cells s0) R C.
+Proof. exact write_chars_placement_gen. Qed.
+Print Assumptions C36_plain_text_any_flags.
+
+(* Console.write of control-free text = write_chars after clearing the flag of the cursor row (any state) *)
+Theorem C36_console_write_plain : forall s str, Forall (fun c => is_ctrl c = false) str -> str <> [] ->
+  console_write s str = write_chars false (set_wrap s (row s) false) str.
+Proof. exact console_write_plain. Qed.
+Print Assumptions C36_console_write_plain.
+
 (* non-vacuity: VIEW PRINT 5 TO 10 : CLS : LOCATE 9,70 satisfies the hypotheses of the placement theorems, and
    100 characters from there wrap twice and scroll the window once: character 11 (the first of the second row)
    is shown at (9, 1) after the scroll, row 4 above the window is untouched *)
@@ -168,3 +237,17 @@ Example C36_locate_nonvacuous :
   (csrlin (fst (locate s (Some 3) (Some 80) None)), pos (fst (locate s (Some 3) (Some 80) None))) = (3, 80) /\
   locate s (Some 26) (Some 1) None = (s, Err 5).
 Proof. vm_compute. repeat split; reflexivity. Qed.
+
+(* non-vacuity of the any-flags theorem: row 23 carries a stale continuation flag (from a 100-character PRINT that
+   scrolled up), the cursor is brought back to it and 80 characters fill it: no pending overflow, the cursor is on
+   row 24 column 1 at once *)
+Example C36_flags_nonvacuous :
+  let s0 := run init_st [SLocate (Some 24) (Some 1) None; SPrint [PV (repeat 65 100); PSemi];
+                         SLocate (Some 23) (Some 1) None] in
+  let s := write_chars false s0 (repeat 66 80) in
+  INV s0 /\ bra s0 = false /\ ovf s0 = false /\ top s0 <= row s0 <= bot s0 /\
+  flags0 s0 23 = true /\
+  (row s, col s, ovf s) = (24, 1, false) /\ get_cell (cells s) 23 80 = 66 /\ get_cell (cells s) 24 1 = 65.
+Proof.
+  cbv zeta. split; [apply reachable_INV|]. vm_compute. repeat split; try reflexivity; discriminate.
+Qed.
